@@ -76,8 +76,8 @@ func (i IPv4Option) String() string {
 
 // for the current ipv4 options, return the number of bytes (including
 // padding that the options used)
-func (ip *IPv4) getIPv4OptionSize() uint8 {
-	optionSize := uint8(0)
+func (ip *IPv4) getIPv4OptionSize() int {
+	optionSize := 0
 	for _, opt := range ip.Options {
 		switch opt.OptionType {
 		case 0:
@@ -87,7 +87,7 @@ func (ip *IPv4) getIPv4OptionSize() uint8 {
 			// this is the padding
 			optionSize++
 		default:
-			optionSize += opt.OptionLength
+			optionSize += int(opt.OptionLength)
 
 		}
 	}
@@ -102,12 +102,19 @@ func (ip *IPv4) getIPv4OptionSize() uint8 {
 // SerializationBuffer, implementing gopacket.SerializableLayer.
 func (ip *IPv4) SerializeTo(b gopacket.SerializeBuffer, opts gopacket.SerializeOptions) error {
 	optionLength := ip.getIPv4OptionSize()
-	bytes, err := b.PrependBytes(20 + int(optionLength))
+	if optionLength > 40 {
+		return fmt.Errorf("IPv4 options take %d bytes, the header holds at most 40", optionLength)
+	}
+	bytes, err := b.PrependBytes(20 + optionLength)
 	if err != nil {
 		return err
 	}
+	// option padding and unused option data bytes are zero
+	for i := 20; i < len(bytes); i++ {
+		bytes[i] = 0
+	}
 	if opts.FixLengths {
-		ip.IHL = 5 + (optionLength / 4)
+		ip.IHL = 5 + uint8(optionLength/4)
 		ip.Length = uint16(len(b.Bytes()))
 	}
 	bytes[0] = (ip.Version << 4) | ip.IHL
